@@ -231,6 +231,16 @@ func init() {
 		if dev {
 			opts = append(opts, jet.InDevelopmentMode())
 		}
+		// options commute: apply them in an order derived from the case
+		hsh := uint64(1469598103934665603)
+		for _, c := range []byte(cmd.String()) {
+			hsh = (hsh ^ uint64(c)) * 1099511628211
+		}
+		for i := len(opts) - 1; i > 0; i-- {
+			j := int(hsh % uint64(i+1))
+			hsh /= 7
+			opts[i], opts[j] = opts[j], opts[i]
+		}
 		set := jet.NewSet(ld, opts...)
 		var rets []*jet.Template
 		out := sx.L()
